@@ -53,11 +53,16 @@ def space(tier):
             "trace_lengths": "1..3 (n<=3), 1..2 (n=4)" if tier == "quick" else "1..3", "matchers": CONFIGS}
 
 
+LABELS2 = [3, 4, -4, 2 ** 40]      # negative and very large integer labels
+
+
 def cases(tier):
     gl = graph_list(tier)
     for cs in COORDS:
         for gi, (n, mask) in enumerate(gl):
             yield {"coords": cs, "n": n, "mask": mask, "tier": tier}
+    for gi, (n, mask) in enumerate(gl):
+        yield {"coords": "nondyadic", "n": n, "mask": mask, "tier": tier, "labels2": True}
 
 
 def intervals(vals):
@@ -83,10 +88,22 @@ def run_case(case):
     pos = COORDS[case["coords"]]
     n = case["n"]
     graph = al.graph_from_mask(n, case["mask"], pos)
+    if case.get("labels2"):
+        graph = {LABELS2[k]: (v[0], [LABELS2[x] for x in v[1]]) for k, v in graph.items()}
     im = maps.inmem(graph)
-    sm = maps.sqlite(graph)
-    sm1 = maps.sqlite(graph, name="s1", bulk=False)     # same content through add_node / add_edge
+    try:
+        sm = maps.sqlite(graph)
+        sm1 = maps.sqlite(graph, name="s1", bulk=False)     # same content through add_node / add_edge
+    except Exception as exc:  # noqa
+        res["n"] += 1
+        res["st"] += 1
+        res["tr"] += 1
+        res["v"].append({"msg": f"graph {al.describe_graph(graph)}: loading the nodes and edges into SqliteMap raised {exc!r}",
+                         "case": dict({"coords": case["coords"], "n": n, "mask": case["mask"]}, **({"labels2": True} if case.get("labels2") else {}))})
+        return res
     mini0 = {"coords": case["coords"], "n": n, "mask": case["mask"]}
+    if case.get("labels2"):
+        mini0["labels2"] = True
 
     def bad(msg, **extra):
         mini = dict(mini0)
